@@ -436,5 +436,5 @@ func RandomLayout(t *rapid.T) *Choices {
 	case 1:
 		return &Choices{C: []int{1}}
 	}
-	return &Choices{C: rapid.SliceOfN(rapid.IntRange(0, 23), 24, 24).Draw(t, "layout")}
+	return &Choices{C: rapid.SliceOfN(rapid.IntRange(0, 23), 24, 24).Draw(t, "layout"), KW: rapid.SampledFrom([]int{0, 0, 0, 0, 1, 2, 3}).Draw(t, "kwcase")}
 }
